@@ -139,12 +139,38 @@ func c19Exec(input sx.S) (obs sx.S) {
 		return sx.L("schema-error", sx.Hex(err.Error()))
 	}
 	outs := []sx.S{}
+	// (reuse): from here on subscription requests of one shape are parsed once and the parsed
+	// executable is resolved again for every further subscriber, its arguments given as variables
+	reuse := false
+	parsed := map[string]*ggql.Executable{}
 	for _, o := range sx.List(input)[1:] {
 		ol := sx.List(o)
 		log.del, log.clean = nil, nil
 		switch sx.Head(o) {
+		case "reuse":
+			reuse = true
 		case "sub":
-			res := root.ResolveString(subRequest(ol[1:]), "", nil)
+			var res map[string]interface{}
+			if reuse {
+				text, vars := subRequestVars(ol[1:])
+				exe := parsed[text]
+				if exe == nil {
+					var err error
+					if exe, err = root.ParseExecutableString(text); err != nil {
+						outs = append(outs, sx.L("rsub-unexpected", sx.Hex(err.Error())))
+						continue
+					}
+					parsed[text] = exe
+				}
+				res = map[string]interface{}{}
+				if data, err := root.ResolveExecutable(exe, "", vars); err != nil {
+					res["errors"] = err.Error()
+				} else if data != nil {
+					res["data"] = data
+				}
+			} else {
+				res = root.ResolveString(subRequest(ol[1:]), "", nil)
+			}
 			if _, has := res["errors"]; has || res["data"] != nil {
 				outs = append(outs, sx.L("rsub-unexpected", sx.Hex(fmt.Sprint(res))))
 			} else {
@@ -187,6 +213,33 @@ func subRequest(subs []sx.S) string {
 	}
 	b.WriteString(" }")
 	return b.String()
+}
+
+// subRequestVars renders the same operation with the arguments of every subscriber as variables:
+// subscribers with equal selection sets share the text, and so the parsed executable.
+func subRequestVars(subs []sx.S) (string, map[string]interface{}) {
+	var head, body strings.Builder
+	vars := map[string]interface{}{}
+	for i, s := range subs {
+		sl := sx.List(s)
+		sched := ""
+		for _, x := range sx.List(sl[4]) {
+			sched += x.(string)
+		}
+		if i > 0 {
+			head.WriteString(", ")
+		}
+		fmt.Fprintf(&head, "$p%d: Int, $s%d: String, $u%d: Int", i, i, i)
+		vars[fmt.Sprintf("p%d", i)] = sx.Int(sl[2])
+		vars[fmt.Sprintf("s%d", i)] = sched
+		vars[fmt.Sprintf("u%d", i)] = sx.Int(sl[1])
+		fmt.Fprintf(&body, " a%d: w(p: $p%d, s: $s%d, u: $u%d) {", i, i, i, i)
+		for _, f := range sx.List(sl[3]) {
+			fmt.Fprintf(&body, " f%d", sx.Int(f))
+		}
+		body.WriteString(" }")
+	}
+	return "subscription(" + head.String() + ") {" + body.String() + " }", vars
 }
 
 // registryOrder reads the live registry through the verif accessor (uids in registry order).
@@ -284,6 +337,9 @@ func c19Gen(r *rand.Rand, tier string) []Case {
 		ops := []sx.S{"hist"}
 		uid := 0
 		npat := 1 + r.Intn(3)
+		if i%4 >= 2 {
+			ops = append(ops, sx.L("reuse"))
+		}
 		if i%2 == 0 { // registry-heavy histories: several live subscribers before anything else happens
 			for k := 3 + r.Intn(4); k > 0; k-- {
 				uid++
@@ -308,11 +364,21 @@ func c19Gen(r *rand.Rand, tier string) []Case {
 
 func c19Tags(ops []sx.S, kind string) []string {
 	tags := []string{kind}
-	var sub, pub, unsub, fail bool
+	var sub, pub, unsub, fail, reuse, reused bool
+	shapes := map[string]bool{}
 	for _, o := range ops[1:] {
 		switch sx.Head(o) {
+		case "reuse":
+			reuse = true
 		case "sub":
 			sub = true
+			if reuse {
+				sh := sx.String(sx.List(sx.List(o)[1])[3])
+				if shapes[sh] {
+					reused = true
+				}
+				shapes[sh] = true
+			}
 			for _, s := range sx.List(o)[1:] {
 				for _, b := range sx.List(sx.List(s)[4]) {
 					if b.(string) == "1" {
@@ -339,6 +405,9 @@ func c19Tags(ops []sx.S, kind string) []string {
 	if unsub {
 		tags = append(tags, "unsubscribe-after-subscribe")
 	}
+	if reused {
+		tags = append(tags, "parsed-request-resolved-again")
+	}
 	if sub && pub && (fail || unsub) {
 		tags = append(tags, "nontrivial")
 	}
@@ -353,6 +422,10 @@ func c19Valid(input sx.S) bool {
 	for _, o := range sx.List(input)[1:] {
 		ol := sx.List(o)
 		switch sx.Head(o) {
+		case "reuse":
+			if len(ol) != 1 {
+				return false
+			}
 		case "sub":
 			if len(ol) != 2 { // one subscription field per operation (several: Go map order, see DESIGN F19)
 				return false
